@@ -4,7 +4,7 @@ from engine import rule, Ob, key_of, EXPLAIN, ASSUME
 from sym import Lin, add, sub, const, tag, show, is_const, as_lin, implied_facts, struct_get
 from util import *
 from order import Order, term_eq
-from c09 import mapping_writes, success_fact, continues
+from c09 import mapping_writes, success_fact, continues, header_method_writes
 
 EXPLAIN["C05"] = (
     "Decides the persistence discipline that makes a reopen see the closed state (the behaviour over histories is not decided): S1 both file "
@@ -57,6 +57,8 @@ def s3(ctx):
     ev, res = ctx.eval(b, no_inline=(r"::mlock$",))
     CN = ("upvar", "create_new")
     ws = [e for e in mapping_writes(res) if ("bool", CN, True) not in ctx.facts_of(ev, e)]
+    # a Header method called on the mapped header is opaque here (H is generic): it is a write when either implementation stores into the header
+    ws += [f for e, f in header_method_writes(ctx, res) if ("bool", CN, True) not in ctx.facts_of(ev, e)]
     yield Ob(key_of("C05-S3", b.path, "one-write"), len(ws) == 1 and ws[0].get("effect") == "write_bytes", "exactly one write on the existing-file path (%d)" % len(ws), b.loc())
     for e in ws:
         if e.get("effect") != "write_bytes":
@@ -111,6 +113,7 @@ def s7(ctx):
         b = ctx.facts.one(pat)
         ev, res = ctx.eval(b, no_inline=(r"::mlock$",))
         bad = [e for e in res.log if (e["kind"] == "call" and e.get("atomic") and e["atomic"] not in ("load",)) or (e["kind"] == "store" and e.get("how") == "store" and tag(e["base"]) != "param") or is_raw_write(e)]
+        bad += [e for e, _f in header_method_writes(ctx, res)]
         yield Ob(key_of("C05-S7", b.path, "no-store"), not bad, "%s performs no store into arena memory" % b.path.split("::")[-2 if "closure" in b.path else -1], b.loc(), {"stores": [ctx.loc(e) for e in bad][:3]})
 
 
